@@ -32,6 +32,12 @@ func (j *judge) judgeTwin() {
 			}
 			if !isPrefix(got, tw[wi][si]) {
 				j.add("sink-not-prefix", "", "W%d sink %d: the %d bytes accepted before the fault (call %d) are not a prefix of the fault-free output (%d bytes): %s", wi, si, len(got), s.FaultCall, len(tw[wi][si]), diffAt(got, tw[wi][si]))
+			} else if !isPrefix(s.Buf, tw[wi][si]) {
+				// The Writer went on writing this frame after the failed call
+				// and left a hole: what the sink holds is no longer a prefix
+				// of the fault-free output. (A writer that retried the failed
+				// bytes successfully would still produce a prefix.)
+				j.add("sink-not-prefix", "after-fault", "W%d sink %d: after the failed call %d the Writer appended %d more bytes; the sink (%d bytes) is not a prefix of the fault-free output: %s", wi, si, s.FaultCall, s.AfterFault, len(s.Buf), diffAt(s.Buf, tw[wi][si]))
 			}
 			j.out.Probes.Add("sentinel.behind.pending", 0)
 		}
@@ -155,6 +161,8 @@ func (j *judge) judgeDependent() {
 			} else if j.p.Readers[ri].Conc != 1 {
 				j.out.Probes.Add("fallback.sequential", 1)
 			}
+			j.out.Probes.Add("offset.65535", int64(v.f.Stats.Off65535))
+			j.out.Probes.Add("cross.block.match", int64(v.f.Stats.DictMatches))
 		}
 	}
 }
